@@ -26,7 +26,7 @@ ClsOf(e) ==
 
 \* what the harness asks through REST for a model-level request kind, and what the model says the answer is
 RqOf(e) ==
-   LET z == [cls |-> "", valid |-> FALSE, etype |-> "", wdn |-> 0, nln |-> 0, ats |-> <<>>, ibgp |-> FALSE] IN
+   LET z == [cls |-> "", valid |-> FALSE, etype |-> "", wdn |-> 0, nln |-> 0, ats |-> <<>>, ibgp |-> FALSE, lp |-> -1] IN
    IF e.k # "rest" THEN z
    ELSE CASE e.m \in {"SEND_UPDATE", "BADCRED_SEND"} -> [z EXCEPT !.cls = "send", !.valid = TRUE, !.etype = "UPDATE", !.nln = 1, !.ats = <<1, 2, 3>>]
           [] e.m = "SEND_RR" -> [z EXCEPT !.cls = "send", !.valid = TRUE, !.etype = "RR"]
